@@ -14,10 +14,11 @@ def resultArgs (r : PbnResult) : List Val :=
 structure PbnWF (r : PbnResult) : Prop where
   /-- a 13-card hand holds ranks 2..14 (`Card.rank_int_to_str` raises outside, the model prints `?`; the sort) -/
   deal : ∀ p, (r.deal p).length = 13 → ∀ c ∈ r.deal p, 2 ≤ c.rank ∧ c.rank ≤ 14
-  /-- the interpreter's `str(int)` prints 40 digits at most -/
-  board : r.boardNum.natAbs < 10 ^ 40
-  tricks : ∀ n, r.tricks = some n → n.natAbs < 10 ^ 40
-  /-- a turn of the `while` loop of `write_line` costs a level of fuel: the free texts fit the top-level fuel -/
+  /-- a turn of the `while` loop of `write_line` costs a level of fuel: the texts fit the top-level fuel.  The two
+  numbers are printed exactly whatever their size (`pw_intStr_eq`); only the LENGTH of their decimal text is bounded
+  (`pw_intRepr_len`: `|n| < 10 ^ f` gives `f + 2` characters at most) -/
+  board : (intRepr r.boardNum).length ≤ 199000
+  tricks : ∀ n, r.tricks = some n → (intRepr n).length ≤ 199000
   event : r.event.length ≤ 199000
   site : r.site.length ≤ 199000
   date : (dateStr r.year r.month r.day).length ≤ 199000
@@ -92,8 +93,8 @@ theorem pw_board_result_call_pos (f : Nat) (chunks : List Str) (r : PbnResult) (
   have hdl := hwf.deal; have hbo := hwf.board; have htr := hwf.tricks
   simp only at hev hsi hda hwe hno hea hso hdl hbo htr hb
   have hb' : boardNum > 0 := by omega
-  have hbs : intStr boardNum = intRepr boardNum := pw_intStr_eq _ hbo
-  have hbl : (intRepr boardNum).length ≤ 199000 := by rw [← hbs]; have := pw_intStr_len boardNum; omega
+  have hbs : intStr boardNum = intRepr boardNum := pw_intStr_eq _
+  have hbl : (intRepr boardNum).length ≤ 199000 := hbo
   have htp := fun f => pw_to_pbn_meth f deal dealer hdl
   cases hd : toPbn? deal dealer with
   | none =>
@@ -137,8 +138,8 @@ theorem pw_board_result_call_pos (f : Nat) (chunks : List Str) (r : PbnResult) (
           pw_str_int, hbs, hbl, jw_str_seat, pw_seat_name_len, jw_contract_vul, pw_pbn_format_meth, pw_vulPbn_len,
           htp, hd, hdt, pw_scoring_value, pw_scoring_len, jw_meth_ipo, hpo, Val.beq]
       | some n =>
-        have hns : intStr n = intRepr n := pw_intStr_eq _ (htr n rfl)
-        have hnl : (intRepr n).length ≤ 199000 := by rw [← hns]; have := pw_intStr_len n; omega
+        have hns : intStr n = intRepr n := pw_intStr_eq _
+        have hnl : (intRepr n).length ≤ 199000 := htr n rfl
         have hm : writeBoardResult? ⟨event, site, year, month, day, boardNum, west, north, east, south, dealer, deal,
             scoring, contract, some n⟩ = some ([("Event".toList, event), ("Site".toList, site),
               ("Date".toList, dateStr year month day), ("Board".toList, intRepr boardNum), ("West".toList, west),
